@@ -43,13 +43,15 @@ MANIFEST = {
             "language of every regular expression (C18_match_correct); (2) about the textual rewrite libyang applies before "
             "PCRE2, transcribed from lys_compile_type_pattern_check() and lys_compile_pattern_chblocks_xmlschema2perl(): it ends "
             "for every pattern with a text or one of the three errors of the code - no undefined behaviour, no fuel "
-            "(C18_rewrite_total, C18_rewrite_no_ub); on every pattern made of ordinary bytes, escape pairs of any byte, bracket "
+            "(C18_rewrite_total, C18_rewrite_no_ub); a pattern without blocks is handed over unchanged iff every ^/$ in it stands "
+            "inside brackets or is escaped (C18_rewrite_identity, any byte string); on every pattern made of ordinary bytes, escape pairs of any byte, bracket "
             "expressions and unescaped ^/$ it inserts exactly one backslash before each unescaped ^/$ outside brackets and changes "
             "nothing else (C18_rewrite_caret_dollar); a block \\p{IsNAME} is replaced by the range of NAME, with the range's own "
             "brackets iff it stands outside brackets (C18_rewrite_block, C18_rewrite_block_depth, C18_block_lookup); on every "
             "pattern without an escaped backslash whose block names are exact it IS the intended rewrite (C18_rewrite_eq_spec), and "
             "it is not on the witnesses of the three remaining rewrite defects (C18_block_prefix_refuted, C18_block_specials_refuted, "
-            "C18_block_depth_refuted); (3) list evaluation with invert-match accepts iff every pattern's match XOR inverted holds "
+            "C18_block_depth_refuted; the seeded regression classes C18-1 and C18-4 as refutations of variant models, "
+            "C18_prev_byte_variant_refuted, C18_carried_depth_variant_refuted); (3) list evaluation with invert-match accepts iff every pattern's match XOR inverted holds "
             "(C18_invert_match), also when the patterns are spread over a typedef chain with invert-match at any level "
             "(C18_invert_match_chain over the transcription of lys_compile_type_patterns(): inherited patterns first, each new "
             "pattern with its own flag), and when levels of the chain restate length with or without patterns: the patterns "
